@@ -1,7 +1,7 @@
 /-
-C17 model, part 2: djs_reject (pydl/pydlutils/math.py:192-451, WITHOUT the
-`maxrej`/`groupdim`/`groupsize`/`groupbadpix` block - the property statement does
-not cover it) for 1-D data, and skymask (pydl/pydlspec2d/spec1d.py:1089-1124)
+C17 model, part 2: djs_reject (pydl/pydlutils/math.py:192-451; `djsReject`: WITHOUT the
+`maxrej`/`groupdim`/`groupsize`/`groupbadpix` block; `djsRejectFull` further down: the
+call with `maxrej=None` on data of any shape), and skymask (pydl/pydlspec2d/spec1d.py:1089-1124)
 with its own small copy of smooth() (pydl/smooth.py) on integers.
 
 The elementwise numpy expressions over equally shaped arrays are written as a map
@@ -119,6 +119,35 @@ def djsReject (sqrt : α → α) (o : Opts α) (data : List α) (model : Option 
     let px := (List.range n).map fun i =>
       (⟨data.getD i 0, mdl.getD i 0, s.getD i 0, inm.getD i true, prev.getD i true⟩ : Pix α)
     pure (djsRejectPix sqrt { o with hasIn := inmask.isSome } px)
+
+/-! ## djs_reject on data of any shape, called with `maxrej=None`
+(the code after repair 0812fab: `grow` acts on the C-order flattened array) -/
+
+/-- the end of `djs_reject` from the working array `badness`: `newmask = badness == 0`, grow
+on the flattened array, `& inmask`, `& outmask` if sticky, `qdone` -/
+def finishMask (o : Opts α) (px : List (Pix α)) (bad : List α) : List Bool × Bool :=
+  let newmask0 := bad.map isZero
+  let grown := growMask o.grow newmask0
+  let m1 := if o.hasIn then List.zipWith (fun a p => a && p.inm) grown px else grown
+  let m2 := if o.sticky then List.zipWith (fun a p => a && p.prev) m1 px else m1
+  (m2, List.all (List.zipWith (fun a p => a == p.prev) m2 px) id)
+
+/-- the group options of a call that leaves `maxrej=None` (what `iterfit` / `combine1fiber` do:
+`djs_reject(..., groupbadpix=True)`) -/
+structure GroupOpts where
+  groupdim : Option (List Nat)
+  groupsize : Option (List Nat)
+  groupbadpix : Bool
+
+/-- `djs_reject(data, model, ..., maxrej=None, groupdim=, groupsize=, groupbadpix=)` for data of any shape
+(arrays C-order flattened, `shape = data.shape`): both the consistency checks of the group options and the
+block that uses them sit under `if maxrej is not None:`, so nothing of `g` is read; every remaining step is
+elementwise or - `grow` - acts on the flattened array, so the routine is `djsReject` on the flattening.
+Calls WITH `maxrej` are not modelled (outside the property statement; see docs/C17.md "observed"). -/
+def djsRejectFull (sqrt : α → α) (o : Opts α) (_g : GroupOpts) (_shape : List Nat) (data : List α)
+    (model : Option (List α)) (outmask inmask : Option (List Bool)) (s : List α) :
+    Except String (List Bool × Bool) :=
+  djsReject sqrt o data model outmask inmask s
 
 /-! ## smooth() on integers and skymask -/
 
